@@ -212,9 +212,11 @@ class Module:
 
 class Project:
     def __init__(self, rng: random.Random, n_modules: int = 5, kinds: list[str] | None = None,
-                 cycles: bool = True, packages: bool = True, ops: list[str] | None = None) -> None:
+                 cycles: bool = True, packages: bool = True, ops: list[str] | None = None,
+                 import_forms: list[str] | None = None) -> None:
         self.rng = rng
         self.ops = ops
+        self.import_forms = import_forms
         self.kinds = kinds or DEF_KINDS
         self.mods: dict[str, Module] = {}
         self.uid = 0
@@ -266,7 +268,7 @@ class Project:
     def add_import(self, m: Module, tgt: str, forms: list[str] | None = None) -> None:
         if tgt not in self.mods and tgt != "main":
             pass
-        form = self.rng.choice(forms or ["import", "import", "from", "from", "star", "fromas", "func", "tc"])
+        form = self.rng.choice(forms or self.import_forms or ["import", "import", "from", "from", "star", "fromas", "func", "tc"])
         t = self.mods.get(tgt)
         extra = ""
         if form in ("from", "fromas"):
@@ -440,10 +442,10 @@ def op_class(ops: list[str]) -> str:
 
 def history(seed_parts: tuple[Any, ...], n_steps: int = 8, n_modules: int = 5, kinds: list[str] | None = None,
             cycles: bool = True, revert_p: float = 0.12, double_p: float = 0.15,
-            ops: list[str] | None = None) -> dict[str, Any]:
+            ops: list[str] | None = None, packages: bool = True, import_forms: list[str] | None = None) -> dict[str, Any]:
     from .common import rng_for
     rng = rng_for("histgen", *seed_parts)
-    proj = Project(rng, n_modules=n_modules, kinds=kinds, cycles=cycles, ops=ops)
+    proj = Project(rng, n_modules=n_modules, kinds=kinds, cycles=cycles, ops=ops, packages=packages, import_forms=import_forms)
     versions = [proj.files()]
     op_log: list[list[str]] = [["init"]]
     snapshots = [copy.deepcopy(proj)]
